@@ -442,7 +442,11 @@ impl<Front: SocketHandler> Connection<Front> {
     }
 
     fn pre_start_stream_client_bookkeeping(&self) {
-        if let Position::Client(_, backend, BackendStatus::Connected) = self.position() {
+        // A reused H1 connection is still `KeepAlive` here: `start_stream` turns
+        // it `Connected`, and its `end_stream` releases the request like any other.
+        if let Position::Client(_, backend, BackendStatus::Connected | BackendStatus::KeepAlive) =
+            self.position()
+        {
             let mut backend_borrow = backend.borrow_mut();
             // Pairs with the `saturating_sub(1)` in the end path. Snapshot the
             // counter so we can assert it advanced by exactly one.
